@@ -144,7 +144,7 @@ def cells(tier, seed):
             for snr in (100, 20):
                 out.append({"fam": "abel", "dim": dim, "field": field, "SNR": snr, "cat": k})
     for std in (1, 0.5):
-        for data in (None, 2.5):
+        for data in (None, 2.5, 0, 0.0, -1.5):      # incl. the falsy observations 0 / 0.0
             for pr in ("default", "gaussian"):
                 out.append({"fam": "wang", "std": std, "data": data, "prior": pr, "cat": k})
     return out
